@@ -1,6 +1,6 @@
 (* C10 — property theorems.  Model: WModel/{LZ77,Codes,Encode,Compressor,WriterSM}.v — the pure-Go writer (acceleration level 0), compared byte for byte with the implementation on every run; the assembly levels are tied to it by the run-time contract checks (DESIGN.md 4.3).
    Only statements, each closed by `exact`, followed by Print Assumptions. *)
-From Verif Require Import FinalSpec WriterTheorems WriterStateProofs TraceContent.
+From Verif Require Import OracleSpec WriterTheorems WriterStateProofs TraceContent Unconditional OracleProofs.
 Open Scope N_scope.
 
 (* after any Writes and Flushes, a Flush returns nil and leaves whole bytes at the destination (nothing
@@ -10,3 +10,11 @@ Theorem C10_flush : C10_statement.
 Proof. exact WriterTheorems.C10_flush. Qed.
 Print Assumptions C10_flush.
 (* "writing more and closing later keeps the stream valid" is C01 for the longer history *)
+
+Theorem C10_unconditional : C10_unconditional_statement.
+Proof. exact Unconditional.C10_unconditional. Qed.
+Print Assumptions C10_unconditional.
+
+Theorem C10_any_match_finder : oracle_C10_statement.
+Proof. exact OracleProofs.oracle_C10. Qed.
+Print Assumptions C10_any_match_finder.
